@@ -2,6 +2,9 @@
 mod check;
 mod data;
 mod e2;
+mod e2b;
+mod e2c;
+mod scen;
 mod families;
 mod host;
 mod mon_local;
